@@ -255,13 +255,13 @@ func runIsolated(c Case) []string {
 	msg := stderr.String()
 	first := ""
 	for _, l := range strings.Split(msg, "\n") {
-		if strings.HasPrefix(l, "panic:") || strings.HasPrefix(l, "fatal error:") {
+		if strings.HasPrefix(l, "panic:") || strings.HasPrefix(l, "fatal error:") || strings.HasPrefix(l, "WARNING: DATA RACE") {
 			first = l
 			break
 		}
 	}
-	if len(msg) > 1500 {
-		msg = msg[:1500]
+	if len(msg) > 4000 {
+		msg = msg[:4000]
 	}
 	return []string{fmt.Sprintf("PROCESS-CRASH %s || %v || %s", first, err, strings.ReplaceAll(msg, "\n", " | "))}
 }
